@@ -32,6 +32,11 @@ PRESENTATION = [
 ]
 
 
+def over16(d):
+    """a member aligned to more than 8 bytes (long double, a 16-byte vector): the `ld` of the violation keys"""
+    return any(c in "lv" for c in d["codes"])
+
+
 def attr_class(d):
     a = []
     if d["packed"]:
@@ -163,7 +168,7 @@ def replay(res, tier, decls, flags=(), tag="base", values=True):
             raise C.ToolError("rust probe failed without naming a declaration: " + err[-1500:])
         for i in culprits[:50]:
             codes = sorted(set(re.findall(r"error\[(E\d+)\]", err)))
-            res.violation("bindings-rejected-by-rustc:%s:%s:%s:ld=%s" % (decls[i]["kind"], attr_class(decls[i]), "+".join(codes), "l" in decls[i]["codes"]),
+            res.violation("bindings-rejected-by-rustc:%s:%s:%s:ld=%s" % (decls[i]["kind"], attr_class(decls[i]), "+".join(codes), over16(decls[i])),
                           {"decl": LP.c_decl(names[i], decls[i]), "rustc": err[-800:]})
         live = [i for i in live if i not in set(culprits)]
     else:
@@ -178,7 +183,7 @@ def replay(res, tier, decls, flags=(), tag="base", values=True):
         results[json.dumps({k: d[k] for k in d if k != "layout"}, sort_keys=True)] = r
         diff = [k for k in ("size", "align", "offsets") if c[k] != r[k]]
         if diff:
-            res.violation("layout:%s:%s:%s:ld=%s" % (d["kind"], attr_class(d), "+".join(diff), "l" in d["codes"]),
+            res.violation("layout:%s:%s:%s:ld=%s" % (d["kind"], attr_class(d), "+".join(diff), over16(d)),
                           {"decl": LP.c_decl(n, d), "clang": c, "rust": {k: r[k] for k in ("size", "align", "offsets")}, "flags": list(flags)})
         elif values and (r["rd"] or r["wr"]):
             res.violation("value:%s:%s:%s" % (d["kind"], attr_class(d), "c-to-rust" if r["rd"] else "rust-to-c"),
@@ -322,7 +327,7 @@ def run(res, tier):
             dk = json.loads(key)
             # classes whose layout is a recorded finding already (the base run reports them against C): the two
             # runs can be wrong in different ways, which says nothing about the presentation option
-            if ((dk["pack"] > 0 or dk["packed"]) and ("l" in dk["codes"] or dk["aligned"] > 0 or dk["malign"] > 0)):
+            if ((dk["pack"] > 0 or dk["packed"]) and (over16(dk) or dk["aligned"] > 0 or dk["malign"] > 0)):
                 continue
             if b and any(b[x] != r[x] for x in ("size", "align", "offsets")):
                 res.violation("presentation-option-changes-layout:%s" % flags[0],
@@ -336,7 +341,7 @@ def run(res, tier):
     c02_bits.cxx_classes(res, tier)
     # members libclang reports no offset for (anonymous structs), under every attribute class
     c02_bits.anon_members(res, tier, decls, attr_class,
-                          lambda d: (d["pack"] > 0 and any(c == "l" for c in d["codes"])) or
+                          lambda d: (d["pack"] > 0 and over16(d)) or
                           ((d["pack"] > 0 or d["packed"]) and (d["aligned"] > 0 or d["malign"] > 0)))
     trace_corpus(res, tier)
     res.cov["exhaustive"] = False
